@@ -213,21 +213,39 @@ impl Snapshot {
 		// Check the tables in each level for the key
 		for (level_idx, level) in (&level_manifest.levels).into_iter().enumerate() {
 			if level_idx == 0 {
-				// Level 0: Tables can overlap, check all
+				// Level 0: Tables can overlap, check all. Tables are ordered by
+				// their largest sequence number, but their sequence ranges can
+				// interleave (a commit applies to the memtable after later
+				// commits when the pipeline overlaps across a rotation), so the
+				// first table holding the key need not hold its newest visible
+				// version: keep the hit with the highest sequence number, and
+				// stop once no remaining table can hold a higher one.
+				let mut newest: Option<(InternalKey, Value)> = None;
 				for table in level.tables.iter() {
+					if let Some((found, _)) = &newest {
+						if table.meta.properties.seqnos.1 <= found.seq_num() {
+							break;
+						}
+					}
 					if !table.is_key_in_key_range(&ikey) {
 						continue; // Skip this table if the key is not in its range
 					}
 
-					let maybe_item = table.get(&ikey)?;
-
-					if let Some(item) = maybe_item {
-						let ikey = &item.0;
-						if ikey.is_tombstone() {
-							return Ok(None); // Key is a tombstone, return None
+					if let Some(item) = table.get(&ikey)? {
+						let is_newer = match &newest {
+							Some((found, _)) => item.0.seq_num() > found.seq_num(),
+							None => true,
+						};
+						if is_newer {
+							newest = Some(item);
 						}
-						return Ok(Some((item.1, ikey.seq_num()))); // Key found, return the value
 					}
+				}
+				if let Some((found, value)) = newest {
+					if found.is_tombstone() {
+						return Ok(None); // Key is a tombstone, return None
+					}
+					return Ok(Some((value, found.seq_num()))); // Key found, return the value
 				}
 			} else {
 				// Level 1+: Non-overlapping, binary search for the one table
